@@ -38,7 +38,7 @@ func runC10(w *World) {
 	if w.Tier == "thorough" {
 		maxPeers = 4
 	}
-	ch := NewChaos(w, ChaosOpts{MaxPeers: maxPeers, Churn: true, Deviations: w.Draw(3, "dev") != 0, AddInTasks: true, OnlyReAdd: action != "close"})
+	ch := NewChaos(w, ChaosOpts{MaxPeers: maxPeers, Churn: true, Deviations: w.Draw(3, "dev") != 0, AddInTasks: true, OnlyReAdd: action != "close", FreeWriters: true})
 	if ch == nil {
 		return
 	}
@@ -332,12 +332,24 @@ func runC10(w *World) {
 			continue
 		}
 		w.Probe("cease-clause-applied")
-		if len(fs) == 0 || !fs[len(fs)-1].IsNotif(6, -1) {
-			if len(fs) > 0 && fs[len(fs)-1].IsNotif(4, -1) && c10HoldTie(c, fs[len(fs)-1], ch) {
+		// the NOTIFICATION sent during the action (UPDATEs of application goroutines that
+		// were inside WriteUpdate, or a KEEPALIVE whose timer fired, may still follow it
+		// before the connection is closed: "sent first" means before the close)
+		li := -1
+		for i := sn.nframes; i < len(fs); i++ {
+			if fs[i].Type == MsgNotification {
+				li = i
+			}
+		}
+		if li >= 0 && li != len(fs)-1 {
+			w.Probe("messages-after-the-cease")
+		}
+		if li < 0 || !fs[li].IsNotif(6, -1) {
+			if li >= 0 && fs[li].IsNotif(4, -1) && c10HoldTie(c, fs[li], ch) {
 				w.Probe("ties:hold-expiry-vs-shutdown")
 				continue
 			}
-			w.Violate("C10/cease/missing-"+action, "%s had sent its OPEN (quiescent since), neither side had sent a NOTIFICATION or closed, yet %s closed it without a Cease as the last message: %s", c, action, descFrames(fs))
+			w.Violate("C10/cease/missing-"+action, "%s had sent its OPEN (quiescent since), neither side had sent a NOTIFICATION or closed, yet %s closed it without sending a Cease: %s", c, action, descFrames(fs))
 			return
 		}
 	}
